@@ -63,7 +63,7 @@ extern "C" int harness_main()
 		cfg.mtu = 2;
 		simulation s(cfg);
 		asio::io_context& tios = s.get_io_context();
-		std::shared_ptr<dropper> drp = std::make_shared<dropper>(1, 2);
+		std::shared_ptr<dropper> drp = std::make_shared<dropper>(2, 2);
 		cfg.out[AA].append(std::make_shared<tap>(0));
 		cfg.out[AA].append(std::static_pointer_cast<sink>(drp));
 		cfg.out[BA].append(std::make_shared<tap>(1));
